@@ -268,6 +268,20 @@ def k_tsc(case):
             except ValueError as e:
                 return dict(rejected=str(e)[:80], canary_ok=True)
     tot = float(N if w is None else w.astype(np.float64).sum())
+    if case.get('repaint_shift'):
+        # second deposit of the *same array object* onto the same grid after an in-place shift of all three coordinates
+        pos += dtype(case['repaint_shift'] * box)
+        with warnings.catch_warnings():
+            warnings.simplefilter('ignore')
+            if MODE == 'S2':
+                orig = (tsc._tsc_parallel, tsc.partition_parallel, tsc._wrap_inplace)
+                tsc._tsc_parallel, tsc.partition_parallel, tsc._wrap_inplace = interp(tsc._tsc_parallel), interp(tsc.partition_parallel), interp(tsc._wrap_inplace)
+            try:
+                tsc.tsc_parallel(pos, grid, box, **kw)
+            finally:
+                if MODE == 'S2':
+                    tsc._tsc_parallel, tsc.partition_parallel, tsc._wrap_inplace = orig
+        tot *= 2
     # the allocation helper used when the grid is given as an int / shape tuple
     z = (interp(tsc._zeros_parallel) if MODE == 'S2' else tsc._zeros_parallel)(tuple(int(x) for x in shape))
     if z.shape != tuple(shape) or z.any():
